@@ -12,6 +12,18 @@ claimed = {
              text='Every PacketQueue method is proved against its contract over the abstract stream view: reads return exactly the next bytes across packet boundaries (typed reads with little-endian composition), a failed read reports ErrNotEnoughBytes, AddPacket/Discard/SetPosition/Reset keep the representation invariant and the unread bytes, Read fills the caller buffer, writes append to the output stream in packets of the current size. Proof level: per-method pre/postconditions and invariants, unbounded in sizes and iteration counts.',
              note='Assumes one goroutine per queue, a queue used under one discipline (read or write), the packet-size function contract (range 9..65535, see C08), no aliasing between caller buffers and queued packet bodies. Obligations above the per-tier claim threshold are listed as unclaimed in the evidence (WriteBytes content clause at the loop exit).',
              ref='3 C15'),
+ 'C18': dict(tech='contract-based deductive verification of the sequential methods (pre/postconditions, type invariants, frame), VCs from go/ssa, z3/cvc5',
+             text='Sequential contracts of the name pool are proved for all inputs: the minting closure returns a fresh cell holding counter+1, Acquire returns a fresh Name with a non-nil id, Release clears the Name, and releasing nil or an already released Name is a no-op so no nil id enters the pool. Proof level for these per-method statements.',
+             note='Not decided: uniqueness of ids among concurrent holders under arbitrary schedules (goroutines are not modelled; the lifting from one-atomic-action-per-method to all histories is an unchecked argument in DESIGN.md). Assumes the sync.Pool Get/Put contract and atomicity of sync/atomic.',
+             ref='3 C18'),
+ 'C19': dict(tech='contract-based deductive verification: VersionRange.contains against a spec function over an uninterpreted deterministic comparer, VCs from go/ssa, z3/cvc5',
+             text='For every comparer (uninterpreted deterministic function) and all strings, contains returns exactly the interval membership stated by the property (inclusive lower, exclusive upper, missing bound unbounded, empty range contains nothing) and reports an error exactly when a needed comparison fails, never a silent answer. Safety and constructor postconditions for Target.SetCapabilities/Version, NewCapability, DefaultVersion. Proof level for these.',
+             note='The loop of SetCapabilities (first containing range wins, error on inverted ranges when evaluated) is covered for memory safety only; the set-level statement (exists over ranges) and order independence are not mechanised. Comparer determinism and the go-version library are assumed.',
+             ref='3 C19'),
+ 'C20': dict(tech='contract-based deductive verification: postconditions naming the unique result for every integer level, map iteration modelled as arbitrary order, VCs from go/ssa, z3/cvc5',
+             text='ASEIsolationLevelFromGo and ToGo are proved equal to spec functions written from the property statement for every int value (not only -8..64), the error is returned exactly for unsupported levels, and the round trip lemma back(fwd(x)) == x is proved for the four supported non-default levels. Determinism follows because each postcondition names one value. Proof level.',
+             note='Assumes sql.IsolationLevel.String is a pure function and the table sql2ase is not modified after initialisation (read from its literal each run). A genuine defect (ToGo depended on map iteration order) was repaired, see known_findings.txt.',
+             ref='3 C20'),
  'C10': dict(tech='contract-based deductive verification: zero-annotation safety sweep (nil, index, slice, make, division, type assertion, callee preconditions) over the receive call tree, VCs from go/ssa, z3/cvc5',
              text='Generated safety obligations of every parser / value decoder reachable from the packet reader are discharged for arbitrary stream contents; structural preconditions are carried by type invariants and typestate ghosts checked at constructors. Proof level: per-function obligations, unbounded.',
              note='Assumes library functions do not panic when their stated preconditions hold, String()/Error() methods do not panic, non-nil receivers (obligation at static call sites). Allocation proportionality and the packet reader loop are listed separately in the evidence; known findings are printed as KNOWN-FINDING.',
